@@ -68,6 +68,10 @@ type World struct {
 	// WrapNode: a node (resolver strategy) handed out as a struct VALUE whose only field is a nil pointer; it is an
 	// object like any other, not a null
 	WrapNode string
+	// KeepLists: the application keeps the list values it hands out (a struct field, a cache): the same Go slice
+	// answers a field every time it is asked
+	KeepLists bool
+	kept      map[string]interface{}
 }
 
 // wrapNode is a resolver whose Go value consists of one nil pointer (the node it stands for is the world's WrapNode).
@@ -83,6 +87,9 @@ func (n wrapNode) Resolve(field *ggql.Field, args map[string]interface{}) (inter
 func (w *World) SetWrapNode(id string) {
 	if w.Strategy != Iface {
 		return
+	}
+	if id != w.WrapNode {
+		w.kept = nil // (the kept lists hold the node in its other form)
 	}
 	delete(w.nodes, w.WrapNode)
 	delete(w.nodes, id)
@@ -430,7 +437,27 @@ func (w *World) resolveVia(via, id string, field *ggql.Field, args map[string]in
 		}
 		return nil, es
 	}
+	if v.K == "list" && w.KeepLists {
+		w.mu.Lock()
+		k, has := w.kept[id+"."+field.Name]
+		w.mu.Unlock()
+		if has {
+			return k, nil
+		}
+	}
 	out := w.toGo(v, 0)
+	if v.K == "list" && w.KeepLists {
+		defer func() {
+			w.mu.Lock()
+			if w.kept == nil {
+				w.kept = map[string]interface{}{}
+			}
+			if _, has := w.kept[id+"."+field.Name]; !has {
+				w.kept[id+"."+field.Name] = out
+			}
+			w.mu.Unlock()
+		}()
+	}
 	if fd, has := w.U.Types[w.U.NodeType[id]].Fields[field.Name]; has && fd.Type != nil {
 		base := fd.Type.Base()
 		if td, ok := w.U.Types[base]; ok && (td.Kind == "OBJECT" || td.Kind == "INTERFACE" || td.Kind == "UNION") {
